@@ -169,7 +169,7 @@ LOAD_ORDER = {
 RECURSIVE = {"_serialize_suite_result", "_unserialize_suite_result"}
 FUEL = {"json": "json_depth", "xml": "xml_depth"}
 
-# helpers modelled by hand in Model/*.v: any edit to them breaks the tie (sha256 of ast.dump, 16 hex digits)
+# helpers modelled by hand in Model/*.v: any edit to them breaks the tie (sha256 of ast.unparse, 16 hex digits)
 PINNED = {
     "lemoncheesecake/reporting/backends/xml.py": {
         "indent_xml": None, "make_xml_node": None, "make_xml_child": None, "serialize_report_as_string": None,
@@ -1541,7 +1541,8 @@ def parse_functions(path):
 
 
 def fn_hash(fn):
-    return hashlib.sha256(ast.dump(fn, include_attributes=False).encode()).hexdigest()[:16]
+    # ast.unparse normalises layout and comments; the harness always runs under the same interpreter (/venv, 3.12)
+    return hashlib.sha256(ast.unparse(fn).encode()).hexdigest()[:16]
 
 
 HEADER = """(* GENERATED by harness/tables_codec.py from the current source of
@@ -1660,17 +1661,17 @@ def generate(repo):
 
 
 PINNED_HASHES = {
-    "lemoncheesecake/reporting/backends/xml.py:indent_xml": "2a81b9b128918be9",
-    "lemoncheesecake/reporting/backends/xml.py:make_xml_node": "64510dbf89c7cf2b",
-    "lemoncheesecake/reporting/backends/xml.py:make_xml_child": "d39708e8724660d3",
-    "lemoncheesecake/reporting/backends/xml.py:serialize_report_as_string": "c9bebe86c6465b58",
-    "lemoncheesecake/reporting/backends/xml.py:save_report_into_file": "954e56bd524ac34c",
-    "lemoncheesecake/reporting/backends/xml.py:load_report_from_file": "0b9159d0bc204757",
-    "lemoncheesecake/reporting/backends/json_.py:save_report_into_file": "caed5540f2e1fe7b",
-    "lemoncheesecake/reporting/backends/json_.py:load_report_from_file": "d7a33bada5811b15",
-    "lemoncheesecake/reporting/report.py:format_time_as_iso8601": "1f3744fab7dc522c",
-    "lemoncheesecake/reporting/report.py:parse_iso8601_time": "315d930df79acb8d",
-    "lemoncheesecake/reporting/loader.py:load_report_from_file": "616684e0f95bf612"
+    "lemoncheesecake/reporting/backends/xml.py:indent_xml": "e0c5efb1485aaf98",
+    "lemoncheesecake/reporting/backends/xml.py:make_xml_node": "edf58ca712206c96",
+    "lemoncheesecake/reporting/backends/xml.py:make_xml_child": "6793b4b5259f09d6",
+    "lemoncheesecake/reporting/backends/xml.py:serialize_report_as_string": "bfc5328e0cf8ea32",
+    "lemoncheesecake/reporting/backends/xml.py:save_report_into_file": "0013a336dab8cee5",
+    "lemoncheesecake/reporting/backends/xml.py:load_report_from_file": "18ab9b543b63a5c4",
+    "lemoncheesecake/reporting/backends/json_.py:save_report_into_file": "2b1664046a7f4eec",
+    "lemoncheesecake/reporting/backends/json_.py:load_report_from_file": "ea56b12d87fbfa5a",
+    "lemoncheesecake/reporting/report.py:format_time_as_iso8601": "c4f671501622e1d4",
+    "lemoncheesecake/reporting/report.py:parse_iso8601_time": "987a56db3d594636",
+    "lemoncheesecake/reporting/loader.py:load_report_from_file": "8d65d0ce612e02bd"
 }
 
 
